@@ -126,6 +126,7 @@ func (r *ReplicateMeteImpl) UpdateTaskDropCollectionMsg(ctx context.Context, msg
 	if err != nil {
 		return false, err
 	}
+	taskMsgs[msg.Base.MsgID] = taskMsg
 	return taskMsg.Base.IsReady(), nil
 }
 
@@ -196,6 +197,7 @@ func (r *ReplicateMeteImpl) UpdateTaskDropPartitionMsg(ctx context.Context, msg 
 	if err != nil {
 		return false, err
 	}
+	taskMsgs[msg.Base.MsgID] = taskMsg
 	return taskMsg.Base.IsReady(), nil
 }
 
